@@ -357,3 +357,141 @@ Proof.
     + intros i F. destruct (B i F) as (k & c & G & E). exists k, c. unfold get. rewrite Cn. auto.
     + unfold returned. rewrite Ac'. reflexivity.
 Qed.
+
+(** ** the checks of one step *)
+Lemma asg_ok_ids_seen i seen : In i (asg_ok_ids seen) -> asg_seen i true seen = true.
+Proof.
+  unfold asg_ok_ids, asg_seen. intros H. apply in_flat_map in H as (o & Ho & Hi). apply existsb_exists. exists o.
+  split; auto. destruct o; try contradiction. destruct ok; [|contradiction]. destruct Hi as [->|[]].
+  cbn. rewrite Nat.eqb_refl. reflexivity.
+Qed.
+
+Lemma step_checks tr s seen l s' os other : Inv tr s -> Rel s seen -> step s l = Some (s', os) ->
+  (forall e, acc s = Waiting e -> retv_of e = retv_for other) ->
+  scan finish_check seen os = true /\ scan (return_check other) seen os = true /\
+  scan assigner_call_check seen os = true.
+Proof.
+  intros I R H Oth. destruct (inv_facts _ _ I) as (Lt & AccNone & ExAsg & RunUsed & WgDone & RetDone).
+  assert (NotRet : forall k c, get s k = Some c -> is_done (c_phase c) = false -> ret_seen seen = false).
+  { intros k c G D. rewrite (rel_ret _ _ R). destruct (returned s) eqn:Rt; auto.
+    rewrite (RetDone _ _ G eq_refl) in D. discriminate. }
+  destruct (step_view _ _ _ _ H) as
+    [-> Cn Nx Rt | -> Cn Nx Rt | k c c' -> G U Sv Pf Nx Rt | k a c c' -> G U Sv Ph Pr Us Nx Rt
+     | k c c' -> G U Ph Sv Ph' Nx Rt | k c c' i ok -> G U Ph Sv Sv' Ph' Nx Rt
+     | k c c' i a st -> G U Ph Sv As Sv' Ph' Nx Rt | v e -> Cn Ac Wg Ev Ac' Nx];
+    try (repeat split; reflexivity); cbn [scan]; rewrite ?andb_true_r.
+  - (* OCall *)
+    assert (Nr : ret_seen seen = false) by (apply (NotRet k c G); rewrite Pr; reflexivity).
+    pose proof (rel_conn _ _ R k c a G (RunUsed _ _ _ G Pr Us)) as F. rewrite Pr in F. unfold flags4 in F. cbn in F.
+    injection F as F1 F2 F3 F4.
+    split; [reflexivity|]. split; unfold return_check, assigner_call_check; rewrite ?Nr, ?F1, ?F3; reflexivity.
+  - (* ONewSvc *)
+    assert (Nr : ret_seen seen = false) by (apply (NotRet k c G); rewrite Ph; reflexivity).
+    split; [reflexivity|]. split; unfold return_check, assigner_call_check; rewrite ?Nr; reflexivity.
+  - (* OAssigner *)
+    assert (Nr : ret_seen seen = false) by (apply (NotRet k c G); rewrite Ph; reflexivity).
+    pose proof (rel_conn _ _ R k c i G Sv) as F. rewrite Ph in F. unfold flags4 in F. cbn in F.
+    injection F as F1 F2 F3 F4.
+    split; [reflexivity|]. split; unfold return_check, assigner_call_check; rewrite ?Nr, ?F1, ?F2, ?F4; reflexivity.
+  - (* OFinish *)
+    assert (Nr : ret_seen seen = false) by (apply (NotRet k c G); rewrite Ph; reflexivity).
+    pose proof (rel_conn _ _ R k c i G Sv) as F. rewrite Ph in F. unfold flags4 in F. cbn in F.
+    injection F as F1 F2 F3 F4. rewrite (ExAsg _ _ _ _ _ G Ph Sv As).
+    split; [|split]; unfold finish_check, return_check, assigner_call_check;
+      rewrite ?Nr, ?F1, ?F2, ?F3, ?Nat.eqb_refl; reflexivity.
+  - (* OReturn *)
+    assert (Nr : ret_seen seen = false).
+    { rewrite (rel_ret _ _ R). unfold returned. rewrite Ac. reflexivity. }
+    split; [reflexivity|]. split; [|reflexivity]. unfold return_check. rewrite Nr. cbn [negb andb].
+    apply andb_true_iff. split.
+    + apply forallb_forall. intros i Hi. apply asg_ok_ids_seen in Hi.
+      destruct (rel_wit _ _ R i (or_introl Hi)) as (k & c & G & E).
+      pose proof (rel_conn _ _ R k c i G E) as F. pose proof (WgDone _ _ G Wg) as D.
+      unfold flags4 in F. injection F as F1 F2 F3 F4. rewrite F3. rewrite Hi in F1.
+      destruct (c_phase c); cbn in D, F1 |- *; congruence.
+    + rewrite Ev, (Oth _ Ac). apply retv_eqb_refl.
+Qed.
+
+(** ** the accept loop fails once: which value it returns is decided by the one AcceptErr of the trace *)
+Lemma has_other_env_cons l r : has_other (env_of (l :: r)) = is_other l || has_other (env_of r).
+Proof.
+  unfold has_other, env_of. cbn [filter]. destruct (is_env l) eqn:E; [reflexivity|].
+  destruct l; try discriminate; reflexivity.
+Qed.
+
+Lemma step_acc_view s l s' os : step s l = Some (s', os) ->
+  (exists e, l = AcceptErr e /\ acc s = Accepting /\ acc s' = Waiting e) \/
+  (exists v, l = LoopReturn v /\ acc s' = Returned v) \/
+  (acc s' = acc s /\ is_other l = false).
+Proof.
+  intros H. destruct l; try (right; right; split; [eapply step_acc_same; eauto; discriminate|reflexivity]).
+  - left. exists e. inv_step H. auto.
+  - right. left. exists v. inv_step H. auto.
+Qed.
+
+Lemma no_other_after : forall r s s' os, run s r = Some (s', os) -> acc s <> Accepting -> has_other (env_of r) = false.
+Proof.
+  induction r as [|l r IH]; intros s s' os H N; [reflexivity|]. cbn [run] in H.
+  destruct (step s l) as [[s1 o1]|] eqn:E; [|discriminate].
+  destruct (run s1 r) as [[s2 o2]|] eqn:E2; [|discriminate].
+  rewrite has_other_env_cons.
+  destruct (step_acc_view _ _ _ _ E) as [(e & _ & A & _)|[(v & -> & A)|(A & ->)]].
+  - contradiction.
+  - cbn. eapply IH; eauto. congruence.
+  - cbn. eapply IH; eauto. congruence.
+Qed.
+
+Definition other_ok (other : bool) (s : state) (t : list label) : Prop :=
+  match acc s with
+  | Accepting => has_other (env_of t) = other
+  | Waiting e => retv_of e = retv_for other
+  | Returned _ => True
+  end.
+
+Lemma other_ok_step other s l s' o1 r s2 o2 : step s l = Some (s', o1) -> run s' r = Some (s2, o2) ->
+  other_ok other s (l :: r) -> other_ok other s' r.
+Proof.
+  intros H Hr O. unfold other_ok in *.
+  destruct (step_acc_view _ _ _ _ H) as [(e & -> & A & A')|[(v & -> & A')|(A' & Io)]].
+  - rewrite A in O. rewrite A'. rewrite has_other_env_cons in O.
+    destruct e; cbn in O.
+    + rewrite (no_other_after _ _ _ _ Hr) in O by congruence. subst other. reflexivity.
+    + subst other. reflexivity.
+  - rewrite A'. exact I.
+  - rewrite A'. destruct (acc s); auto. rewrite has_other_env_cons, Io in O. exact O.
+Qed.
+
+(** ** whole runs *)
+Lemma scan_run other : forall t tr s seen s' os, Inv tr s -> Rel s seen -> other_ok other s t ->
+  run s t = Some (s', os) ->
+  scan finish_check seen os = true /\ scan (return_check other) seen os = true /\
+  scan assigner_call_check seen os = true.
+Proof.
+  induction t as [|l r IH]; intros tr s seen s' os I R O H; cbn [run] in H.
+  - injection H as <- <-. repeat split.
+  - destruct (step s l) as [[s1 o1]|] eqn:E; [|discriminate].
+    destruct (run s1 r) as [[s2 o2]|] eqn:E2; [|discriminate]. injection H as <- <-.
+    assert (Ow : forall e, acc s = Waiting e -> retv_of e = retv_for other).
+    { intros e A. unfold other_ok in O. rewrite A in O. exact O. }
+    destruct (step_checks _ _ _ _ _ _ other I R E Ow) as (C1 & C2 & C3).
+    destruct (IH _ _ _ _ _ (inv_step_pres _ _ _ _ _ I E) (step_rel _ _ _ _ _ _ I R E)
+                 (other_ok_step _ _ _ _ _ _ _ _ E E2 O) E2) as (D1 & D2 & D3).
+    rewrite !scan_app, C1, C2, C3, D1, D2, D3. repeat split.
+Qed.
+
+Lemma run_monitors tr s os : run (init true) tr = Some (s, os) ->
+  scan finish_check [] os = true /\ scan (return_check (has_other (env_of tr))) [] os = true /\
+  scan assigner_call_check [] os = true.
+Proof.
+  intros H. eapply (scan_run _ tr []); [exact inv_init|exact rel_init| |exact H]. reflexivity.
+Qed.
+
+(** * Soundness *)
+Theorem mon_finish_once_sound tr s os : run (init true) tr = Some (s, os) -> mon_finish_once (env_of tr) os = true.
+Proof. intros H. apply (run_monitors _ _ _ H). Qed.
+
+Theorem mon_return_last_sound tr s os : run (init true) tr = Some (s, os) -> mon_return_last (env_of tr) os = true.
+Proof. intros H. apply (run_monitors _ _ _ H). Qed.
+
+Theorem mon_assigner_call_sound tr s os : run (init true) tr = Some (s, os) -> mon_assigner_call (env_of tr) os = true.
+Proof. intros H. apply (run_monitors _ _ _ H). Qed.
